@@ -937,6 +937,7 @@ func (vc *VC) callWrites(st *State, fr *Frame, call *ssa.CallCommon, arrays map[
 			}
 		}
 	case *ssa.Function:
+		vc.callEventWrites(callee.String(), arrays)
 		vc.funcWrites(st, fr, callee, arrays, allocs, depth, visiting)
 		// closures passed as arguments (errgroup.Go(func)) are executed synchronously
 		for _, a := range call.Args {
@@ -961,7 +962,13 @@ func (vc *VC) callEventWrites(target string, arrays map[string]bool) {
 		if ev.Kind != "call" {
 			continue
 		}
+		match := false
 		if full, err := vc.qualify(ev.Target, vc.pkgOf(ev.Pkg), 2); err == nil && full == target {
+			match = true
+		} else if fn, err := vc.resolveFunc(ev.Target, vc.pkgOf(ev.Pkg)); err == nil && fn.String() == target {
+			match = true
+		}
+		if match {
 			for _, gs := range ev.Stmts {
 				if id, ok := gs.Target.(*EIdent); ok {
 					arrays["GG_"+id.Name] = true
@@ -1436,8 +1443,8 @@ func (vc *VC) step(st *State, fr *Frame, in ssa.Instruction) bool {
 		if sc, ok := addr.(Sc); ok {
 			vc.nonNil(st, fr, sc.T, "store", x.Pos())
 		}
+		vc.fieldStoreEvent(st, fr, x) // events see the state before the store
 		st.storeLoc(loc, vc.value(st, fr, x.Val))
-		vc.fieldStoreEvent(st, fr, x)
 	case *ssa.MakeMap:
 		m := x.Type().Underlying().(*types.Map)
 		ref := st.newRef()
